@@ -41,7 +41,7 @@ fn info(tier: Tier) -> CheckInfo {
             "endpoint replies faster than 500 ms count as in time (the request timeout never drops below 500 ms)".into(),
         ],
     };
-    ci.rule.push_str(" Added: a put in its store phase crossed with another lookup of the same target ending with tokens / without / errors only / silence; the main matrix also through the blocking Dht::put.");
+    ci.rule.push_str(" Added: a put in its store phase crossed with another lookup of the same target ending with tokens / without / errors only / silence; the main matrix also through the blocking Dht::put. Also: two calls issued back to back (two puts, or a put and a get of another target) whose lookups are answered by disjoint pairs of storers and end in one loop iteration - each write reaches the storers that answered its own lookup and nobody else.");
     ci
 }
 
@@ -781,6 +781,95 @@ fn big(total: usize, pattern: usize, out: &mut Partial) {
     }
 }
 
+/// Two puts (different targets) whose lookups end in the same loop iteration: for T1 only
+/// storers 0 and 1 answer the lookup, for T2 only storers 2 and 3, storer 4 answers neither, so
+/// both lookups end when their requests to the silent storers expire together. Each write goes to
+/// the nodes that answered *its own* lookup and to nobody else.
+fn two_puts_one_tick(swap: bool, kind_pair: usize, out: &mut Partial) {
+    let mut w = World::new(Chooser::default_run());
+    let vals: [&[u8]; 2] = if swap { [b"c08 second value", b"c08 first value"] } else { [b"c08 first value", b"c08 second value"] };
+    let t = [krpc::immutable_target(vals[0]), krpc::immutable_target(vals[1])];
+    let ids = crate::epnet::ranked_ids(&t[0], 5);
+    let mut net = EpNet::new(&mut w, &ids);
+    let eps = net.addrs();
+    let a = w.add_node(NodeCfg::new([9, 9, 9, 9], 7000).bootstrap(&eps).id([0x21; 20]));
+    let pump = |w: &mut World, net: &mut EpNet, ev: &Event| {
+        if let Event::EndpointRecv { ep, dgram } = ev {
+            let i = net.index_of(*ep).expect("ep");
+            let Some(q) = krpc::Krpc::parse(&dgram.bytes) else { return };
+            if !q.is_query() {
+                return;
+            }
+            let is_put = q.q.as_deref() == Some("put");
+            if !is_put {
+                if q.query_target() == Some(t[0]) && i > 1 {
+                    return;
+                }
+                if q.query_target() == Some(t[1]) && !(i == 2 || i == 3) {
+                    return;
+                }
+            }
+            net.handle(w, *ep, dgram);
+        }
+    };
+    let h = w.now + 3 * SEC;
+    w.run_until(h, |w, ev| {
+        pump(w, &mut net, ev);
+        false
+    });
+    let calls: Vec<usize> = if kind_pair == 0 {
+        vec![w.call_put_immutable(a, vals[0].to_vec()), w.call_put_immutable(a, vals[1].to_vec())]
+    } else {
+        // the second write is a lookup-only call: nothing of it may be written anywhere
+        vec![w.call_put_immutable(a, vals[0].to_vec()), w.call_get_immutable(a, t[1].into())]
+    };
+    let mut both_pending = false;
+    let mut ended_together = false;
+    let h = w.now + 60 * SEC;
+    loop {
+        if calls.iter().all(|c| w.result(*c).is_some()) {
+            break;
+        }
+        let Some(ev) = w.step(h) else { break };
+        pump(&mut w, &mut net, &ev);
+        if let Event::Iter { node } = &ev {
+            if *node == a && !ended_together {
+                let s = w.snapshot(a);
+                let pending = s.core.iterative_queries.iter().filter(|q| *q.target.as_bytes() == t[0] || *q.target.as_bytes() == t[1]).count();
+                if pending == 2 {
+                    both_pending = true;
+                } else if both_pending && pending == 0 {
+                    ended_together = true;
+                } else if pending == 1 {
+                    both_pending = false;
+                }
+            }
+        }
+    }
+    w.run_for(2 * SEC);
+    out.add("executions", 1);
+    out.add("transitions", w.steps);
+    out.add("two_lookups_ended_in_one_iteration", ended_together as u64);
+    let replay = json!({"part": "two-puts", "swap": swap, "kind_pair": kind_pair});
+    let ctx = format!("two calls issued back to back ({}), their lookups answered by disjoint pairs of storers and ending {}in one loop iteration", if kind_pair == 0 { "put_immutable + put_immutable" } else { "put_immutable + get_immutable of another target" }, if ended_together { "" } else { "NOT " });
+    for (vi, v) in vals.iter().enumerate() {
+        let allowed: &[usize] = if vi == 0 { &[0, 1] } else { &[2, 3] };
+        let got: Vec<usize> = net.eps.iter().enumerate().filter(|(_, e)| e.puts.iter().any(|p| p.raw.arg_bytes("v") == Some(*v))).map(|(i, _)| i).collect();
+        if got.iter().any(|i| !allowed.contains(i)) {
+            out.violation("write-sent-to-a-node-that-did-not-answer-its-lookup/two-lookups-end-in-one-iteration", format!("{ctx}: the write of value #{vi} reached storers {got:?}, its lookup was answered by {allowed:?}"), replay.clone());
+        }
+        if kind_pair == 0 || vi == 0 {
+            if got.is_empty() {
+                out.violation("write-never-sent/two-lookups-end-in-one-iteration", format!("{ctx}: the write of value #{vi} reached no storer although {allowed:?} answered its lookup with a token"), replay.clone());
+            }
+            match w.result(calls[vi]) {
+                Some(CallResult::Put(Ok(_))) => out.add("ok_results", 1),
+                other => out.violation("put-result/two-lookups-end-in-one-iteration", format!("{ctx}: put #{vi} returned {other:?} although storers {allowed:?} answered its lookup and acknowledge"), replay.clone()),
+            }
+        }
+    }
+}
+
 fn run(tier: Tier, shard: usize, nshards: usize, _seed: u64) -> Partial {
     let mut out = Partial::default();
     let max_n = if tier.is_quick() { 3 } else { 4 };
@@ -879,6 +968,14 @@ fn run(tier: Tier, shard: usize, nshards: usize, _seed: u64) -> Partial {
             }
         }
     }
+    for swap in [false, true] {
+        for kind_pair in 0..2 {
+            idx += 1;
+            if idx % nshards == shard {
+                two_puts_one_tick(swap, kind_pair, &mut out);
+            }
+        }
+    }
     out.witness("a put returned Ok", out.count("ok_results") > 0);
     out.witness("a put returned an error", out.count("err_results") > 0);
     out.sample(json!({"kind": "mutable", "endpoints": ["ack", "e301", "e301"], "arrival_order": 2, "oracle": "Ok or (majority 301 => CasFailed)"}));
@@ -901,6 +998,8 @@ fn replay(v: &Value) -> Result<Option<Violation>, String> {
     let mut out = Partial::default();
     if v.get("part").and_then(|p| p.as_str()) == Some("extra") {
         extra_mix(v.get("kind").and_then(|x| x.as_u64()).ok_or("kind")? as usize, &mut out);
+    } else if v.get("part").and_then(|p| p.as_str()) == Some("two-puts") {
+        two_puts_one_tick(v.get("swap").and_then(|x| x.as_bool()).unwrap_or(false), v.get("kind_pair").and_then(|x| x.as_u64()).unwrap_or(0) as usize, &mut out);
     } else if v.get("part").and_then(|p| p.as_str()) == Some("overlap") {
         overlap(v.get("pair").and_then(|x| x.as_u64()).ok_or("pair")? as usize, Some(v.get("at_event").and_then(|x| x.as_u64()).ok_or("at_event")? as u32), &mut out);
     } else if v.get("part").and_then(|p| p.as_str()) == Some("adaptive-timeout") {
